@@ -243,7 +243,7 @@ pub fn minimise(
             }
         }
         // 5. length (not for arrays: fixed set of sizes)
-        if !matches!(best.kind, Kind::Array | Kind::ArrayRef) && best.range_end.is_none() {
+        if !best.kind.is_array() && best.range_end.is_none() {
             while best.len > 0 && !sh.expired() {
                 let mut c = best.clone();
                 c.len -= 1;
